@@ -11,10 +11,11 @@ CLAIMED = {
         "caches agree with the backend afterwards, and finds the violation for a two-step MKDIR, for READDIR dropping vanished entries (F29b) and "
         "for cache puts overtaken by an invalidation (F29a). The harness (built with -race) drives 2-4 client goroutines x 2-4 requests through "
         "HandleCall over the thread-safe vfs backend with seeded yields/spins/sleeps before and after every backend operation, on distinct names "
-        "sharing directories and handles, under 8 cache configurations, plus contended histories (same names and handles), attribute storms (simultaneous GETATTRs of files of different sizes, size and fileid "
+        "sharing directories and handles, under 8 cache configurations, plus contended histories (same names and handles), attribute storms (simultaneous GETATTRs and whole-file READs of files of different sizes and contents; size, fileid, count, data and eof "
         "compared), re-export rounds (Unexport, then MNT + READDIRPLUS by all clients at once behind a barrier, handle table projected after every "
         "round) directed schedules with blocking gates and nested schedules (every backend-operation boundary of a request on a file x another client's "
-        "rename / remove of the same file, then both use the old handle again: no-deadlock clause); every request is logged with invocation/response stamps of one atomic counter, arguments and decoded "
+        "rename / remove of the same file, then both use the old handle again: no-deadlock clause) and paired schedules (two requests, e.g. cross-directory RENAMEs in opposite "
+        "directions, stepped boundary by boundary from every pair of starting boundaries: lock-order inversions); every request is logged with invocation/response stamps of one atomic counter, arguments and decoded "
         "results, and after the join the backend tree, both handle maps and the unexpired cache entries are read in-package. LinearizeTrace.tla "
         "makes every history an initial state and lets TLC search (depth-first queue, one worker) for an order consuming all requests whose "
         "every step is an allowed CoreOps outcome with the recorded reply (LOOKUP type, GETATTR type/size/mode, READ count/data/eof, READDIR "
